@@ -3,6 +3,16 @@ package main
 func registry() []PropSpec {
 	return []PropSpec{
 		{
+			ID: "C09",
+			Quick: []HarnessSpec{
+				{Pkg: pkgInternal, Func: "H09a_q", Unwind: 6, Note: "read(k): k<=4 bytes, <=3 Read calls each returning symbolic (n<=len(p), err in {nil,EOF,other})"},
+				{Pkg: pkgInternal, Func: "H09b_q", Unwind: 6, Note: "readDelimitedMessageRaw: symbolic 4-byte prefix + body <=2 bytes, max size 0..2, <=4 Read calls"},
+				{Pkg: pkgInternal, Func: "H09d_q", Unwind: 6, Note: "as H09b plus a reader that may block forever at any call (stall); timer branch"},
+			},
+			Stubs: []string{"io.Reader = script reader with symbolic (n, err) per call, assumed to end/fail/complete within the stated number of calls", "goroutine in readDelimitedMessageRaw runs to completion (or until it blocks) at the spawn point; time.After is ready nondeterministically and fires when nothing else is ready"},
+			Out:   []string{"JSON wire variant (encoding/json)", "real timers", "proto.Marshal/Unmarshal"},
+		},
+		{
 			ID: "C08",
 			Quick: []HarnessSpec{
 				{Pkg: pkgCC, Func: "H08a_q", Unwind: 6, Recur: 8, Note: "<=2 patterns x <=3 components over {a,b,*,**}; name <=3 components over {a,b}"},
